@@ -7,7 +7,7 @@ import ast
 from ..cfg import build_cfg, calls_in, node_calls
 from ..core import Ctx, property_info, rule, share
 from ..model import AnalysisError, FuncInfo, walk_no_nested
-from ..q import A, L, X, alternatives, call_name_of, control_deps, dep_texts, expand, expand_at, flows, tests_like, is_self_attr, kwarg, stores, unparse
+from ..q import A, L, X, alternatives, call_name_of, control_deps, dep_texts, entry_conditions, expand, expand_at, flows, func_text, path_conditions, tests_like, is_self_attr, kwarg, stores, unparse
 from .c10 import flag_liveness_and_overrides
 from .c15 import shape_validation
 
@@ -68,6 +68,8 @@ def _json_shape(fi: FuncInfo, ret, v: ast.expr, depth: int = 0) -> str | None:
         for txt, pol, t in control_deps(fi, ret):
             if pol and isinstance(t.ast, ast.Call) and call_name_of(t.ast) == "isinstance" and len(t.ast.args) == 2 and isinstance(t.ast.args[0], ast.Name) and t.ast.args[0].id == v.id:
                 tp = t.ast.args[1]
+                if isinstance(tp, ast.Name) and isinstance(fi.module.globals.get(tp.id), ast.Tuple):
+                    tp = fi.module.globals[tp.id]  # a module constant holding the tuple of types
                 names = {unparse(e) for e in tp.elts} if isinstance(tp, ast.Tuple) else {unparse(tp)}
                 if names <= JSON_NATIVE:
                     return "json-native value"
@@ -100,7 +102,7 @@ def encoder_return_shapes(ctx: Ctx) -> None:
     bad = [c for c in conds if not (isinstance(c, ast.Compare) and len(c.ops) == 1 and isinstance(c.ops[0], (ast.Is, ast.IsNot)) and isinstance(c.comparators[0], ast.Constant) and c.comparators[0].value is None)]
     ctx.ob("filter_none filters on `is (not) None` only - never on truthiness", bool(conds) and not bad, at=fn, construct="filter_none", msg="the None-filtering factory drops or keeps other values (0, '', False, [] would vanish from the output)")
     js = ctx.repo.func("xsdata.formats.dataclass.serializers.json:JsonSerializer.write")
-    dumps = [c for c in calls_in(js.node) if unparse(c.func) == "self.dump_factory"]
+    dumps = [c for c in calls_in(js.node) if func_text(js, c) == "self.dump_factory"]
     ok = bool(dumps) and all(c.args and isinstance(expand(js.node, c.args[0]), ast.Call) and call_name_of(expand(js.node, c.args[0])) == "encode" for c in dumps)
     ctx.ob("JsonSerializer.write dumps encode(obj)", ok, at=js, construct="json dump", msg="json output not the encoded form")
 
@@ -148,19 +150,26 @@ def key_agreement(ctx: Ctx) -> None:
     fv = ctx.repo.func(f"{PAR}:DictDecoder.find_var")
     gv = build_cfg(fv.node)
     rets = [r for r in gv.returns() if r.ast.value is not None and not (isinstance(r.ast.value, ast.Constant) and r.ast.value.value is None)]
-    arity = ("collections.is_array(", "_.list_elementor_.tokens")
     direct = nested = 0
     bad = []
+    # path sensitive: on EVERY path to a `return <field>` the key matched the field's own name (and the value's list-ness agrees), or it
+    # matched the wrapper and the value is a dict that contains the own name (and the nested value's list-ness agrees)
     for r in rets:
-        true_deps = dep_texts(fv, r, True)
-        has_arity = any(t.count("==") == 1 and arity[0] in t and arity[1] in t for t in true_deps)
-        if any(t in ("_.local_name==_", "_==_.local_name") for t in true_deps) and has_arity:
-            direct += 1
-        elif any(t in ("_.wrapper==_", "_==_.wrapper") for t in true_deps) and "isinstance(_,dict)" in true_deps and "_.local_namein_" in true_deps \
-                and any(t.count("==") == 1 and "collections.is_array(_[_.local_name])" in t and arity[1] in t for t in true_deps):
-            nested += 1
-        else:
-            bad.append(sorted(true_deps))
+        paths = path_conditions(fv, r)
+        if not paths:
+            bad.append(["<too many paths>"])
+        for conds in paths:
+            true_t = set().union(*[txts for txts, pol, _ in conds if pol] or [set()])
+            false_t = set().union(*[txts for txts, pol, _ in conds if not pol] or [set()])
+            eq = lambda a, b: ({f"{a}=={b}", f"{b}=={a}"} & true_t) or ({f"{a}!={b}", f"{b}!={a}"} & false_t)  # noqa: E731
+            arity_direct = any(t.count("==") == 1 and "collections.is_array(_)" in t and "_.list_elementor_.tokens" in t for t in true_t)
+            arity_nested = any(t.count("==") == 1 and "collections.is_array(_[_.local_name])" in t and "_.list_elementor_.tokens" in t for t in true_t)
+            if eq("_.local_name", "_") and arity_direct:
+                direct += 1
+            elif eq("_.wrapper", "_") and "isinstance(_,dict)" in true_t and "_.local_namein_" in true_t and arity_nested:
+                nested += 1
+            else:
+                bad.append(sorted(true_t)[:6])
     ctx.ob("find_var returns a field only for key == var.local_name, or key == var.wrapper with var.local_name nested inside a dict, and only when list-ness of the value agrees with the field",
            direct >= 1 and nested >= 1 and not bad, at=fv, construct="decoder keys", msg=f"decoder matches other attributes than the encoder emits, or ignores arity: {bad[:1]}")
     bd = ctx.repo.func(f"{PAR}:DictDecoder.bind_dataclass")
@@ -225,7 +234,8 @@ def exact_type_choice_lookup(ctx: Ctx) -> None:
 
     member = [(t, _membership(fp, t)) for t in g.nodes if t.kind == "test"]
     exact = [t for t, m in member if m is not None and m[1] == "_.types" and all(isinstance(v, ast.Call) and call_name_of(v) == "type" for v in m[0])]
-    ok = bool(exact) and any(g.only_if(r.id, t.id, True) for r in rets for t in exact)
+    # the return is taken when the exact-type membership holds: a necessary condition of the return, or one of the alternatives of an `or`
+    ok = bool(exact) and any(g.only_if(r.id, t.id, True) or any(tn.id == t.id and pol for _x, pol, tn in entry_conditions(fp, r)) for r in rets for t in exact)
     ctx.ob("find_primitive_choice returns a choice when type(value) (or of the first token) is a member of element.types", ok, at=fp, construct="primitive type membership", msg="exact type shortcut changed")
     skip_ok = bool(rets) and all({"_.any_type", "_.clazz"} <= dep_texts(fp, r, False) for r in rets)
     tok_ok = bool(rets) and all(any(("_.tokens" in t and "!=" in t and not pol) or ("_.tokens" in t and "==" in t and "!=" not in t and pol) for t, pol, _ in control_deps(fp, r)) for r in rets)
